@@ -1,8 +1,8 @@
 """C17 - LLCP addressing: binding, discovery and delivery reach the right socket.
 
 Two real LogicalLinkControllers joined by vf.sim.llcpair.LockstepPair run histories of
-socket / bind / listen / connect(+accept) / sendto / recvfrom / resolve / close operations through the public
-nfc.llcp.Socket API.  Every outcome is compared with the independent address table vf.ref.addr_model (allowed
+socket / bind / listen / connect(+accept) / sendto / recvfrom / resolve / close / close-again operations through the
+public nfc.llcp.Socket API.  Every outcome is compared with the independent address table vf.ref.addr_model (allowed
 outcome *class*: address set or errno set).  Blocking connect()/resolve()/close() calls run in daemon helper
 threads that the harness pumps with link turns.
 
@@ -15,6 +15,13 @@ Monitors
                   which listening socket has the request + a token received by the accepted socket), else refused
   datagram/...    a received datagram was sent to the receiver's bound address; payload, length, source intact
   dlc/...         data on a connection arrives at the connected socket only (several connections on one SAP)
+  close-again/... close() of an already closed socket (once / twice; plain, accepted, address reused meanwhile) leaves
+                  the controller's address table (access points and their members, service names) as it was; every
+                  later bind / resolve / connect / datagram is judged against the unchanged model as usual
+  resolve-batch/. k = 2..6 resolve() calls started before the link is pumped (their SDREQs share one SNL PDU - checked
+                  and counted on the wire): every answer is judged like a single resolve
+  snl-batch/...   one SNL PDU with several SDREQs sent through a raw access point: every SDRES seen on the wire is
+                  judged against the peer's table (no resolver, no cache in between)
   invariant/...   structure of llc.sap / llc.snl after every operation (single-threaded at that moment)
 After a complaint the addresses / names involved are tainted: the model predicts nothing about them any more, so one
 defect yields its own signature(s) and the history continues on the rest of the table.
@@ -29,10 +36,13 @@ from vf.ref import addr_model as AM
 ID = "C17"
 LEVEL = "exploration"
 RULE = ("cases = operation histories on two link controllers: (a) all sequences of up to 3 (thorough: 4) symbols over "
-        "a 16-symbol alphabet of bind/listen/close/resolve/connect/sendto operations on 5 socket slots, (b) random "
+        "a 19-symbol alphabet of bind/listen/close/resolve/connect/sendto/close-again/resolve-batch/SNL-batch "
+        "operations on 6 socket slots, in the quick tier also all 4-symbol sequences that end in one of the three "
+        "new symbols, (b) random "
         "histories of ~60-110 operations drawn from 7 profiles (mixed, names life cycle, named-address exhaustion, "
         "dynamic exhaustion, well-known names + raw access points, datagrams, several connections per listener) with "
-        "arguments biased by the model state (occupied / freed / tainted addresses, registered / closed names); a "
+        "arguments biased by the model state (occupied / freed / tainted addresses, registered / closed names, closed "
+        "sockets whose address is in use again; batches mix fresh bound, fresh closed, unbound and well-known names); a "
         "case is distinct by its concrete operation list and non-trivial if at least one model-judged outcome "
         "(bind, resolve, connect, datagram receive) was evaluated in it")
 ASSUMPTIONS = ["vf.ref.addr_model is a faithful reading of the LLCP address plan and the documented Socket.bind contract",
@@ -40,10 +50,15 @@ ASSUMPTIONS = ["vf.ref.addr_model is a faithful reading of the LLCP address plan
                "urn:nfc:sn:ip / urn:nfc:sn:obex (registry only, not documented by nfcpy) may get 2/3 or 16-31",
                "resolve() answers served from the resolver's cache after the peer's binding changed are not judged",
                "loss of a connectionless datagram is allowed (best effort); only misdelivery/alteration is judged",
-               "the link stays up; no operations on closed sockets; no UI traffic to connection-mode SAPs"]
+               "the link stays up; no operations on closed sockets other than close(); no UI traffic to connection-mode SAPs",
+               "transaction ids of harness-made SNL PDUs avoid the ones the local resolver has used (adapter reads "
+               "ServiceDiscovery.sent); the start order of batched resolve() helpers is synchronised on "
+               "ServiceDiscovery.sdreq (adapter, never a verdict)"]
 REQUIRED = ["op_bind", "op_resolve", "op_connect", "op_sendto", "op_close", "datagrams_delivered", "resolves_answered",
             "connect_by_name_success", "connect_by_name_refused", "invariant_evaluations", "exhaustion_episodes",
-            "reuse_episodes", "judged_bind"]
+            "reuse_episodes", "judged_bind", "op_reclose", "reclose_address_reused", "reclose_beside_listener",
+            "reclose_accepted_socket", "reclose_twice", "resolve_batches_in_one_snl", "batch_present_before_absent",
+            "judged_resolve_batch", "snl_batches_in_one_pdu", "judged_snl_batch"]
 
 TURN_LIMIT = 4000
 IDLE_LIMIT = 12
@@ -154,19 +169,36 @@ class Hist(object):
         Gives up as *hung* only when the request is out, no answer was seen and the link stayed idle for IDLE_LIMIT
         turn pairs (nothing is pending anywhere, so nothing can wake the caller).  Everything else that does not
         finish within the wall-clock guard is reported as not done and not hung (-> inconclusive)."""
-        res = {}
+        done, outs, cap, hung = self.blocking_many([fn], sent, answered, on_turn)
+        return done, outs[0], cap, hung
+
+    def blocking_many(self, fns, sent, answered, on_turn=None, started=None):
+        """like blocking() for several calls: all helper threads are started (in order; started(i, thread) is called
+        after each start, before the next one) BEFORE the first link turn, then the link is pumped until all have
+        returned.  Returns (all done, [outcome or None per call], wire capture, hung)."""
+        n = len(fns)
+        res = [None] * n
+        left = [n]
+        lock = threading.Lock()
         done = threading.Event()
 
-        def body():
+        def body(i):
             try:
-                res["out"] = self.call(fn)
+                out = self.call(fns[i])
             except BaseException as e:     # noqa
-                res["out"] = ("exc", e)
-            finally:
-                done.set()
-        th = threading.Thread(target=body, daemon=True)
+                out = ("exc", e)
+            with lock:
+                res[i] = out
+                left[0] -= 1
+                if left[0] == 0:
+                    done.set()
         self.capture = cap = []
-        th.start()
+        th = None
+        for i in range(n):
+            th = threading.Thread(target=body, args=(i,), daemon=True)
+            th.start()
+            if started:
+                started(i, th)
         idle = turns = 0
         hung = False
         guard = time.monotonic() + WALL_GUARD
@@ -184,15 +216,17 @@ class Hist(object):
                 if not answered(cap):
                     hung = True
                     break
-                if done.wait(WALL_GUARD):     # the answer was delivered: the helper only needs CPU time
+                if done.wait(WALL_GUARD):     # the answer was delivered: the helpers only need CPU time
                     break
             if time.monotonic() > guard:
                 break
         self.R.count("link_turns", 2 * turns)
-        self.R.count("helper_threads")
+        self.R.count("helper_threads", n)
         self.capture = None
         self.helper = (th, done)
-        return done.is_set(), res.get("out"), cap, hung
+        with lock:
+            outs = list(res)
+        return done.is_set(), outs, cap, hung
 
     def pump(self, n):
         c = 0
@@ -390,10 +424,84 @@ class Hist(object):
             self.m[self.end[p]].sock[p].connected = False
         self.pump(1)
 
+    def table(self, end):
+        """the controller's address table as far as it can be seen: access points with their members, service names"""
+        llc = self.llc[end]
+        try:
+            saps = tuple((a, tuple(id(t) for t in list(llc.sap[a].sock_list))) for a in range(2, 64)
+                         if llc.sap[a] is not None)
+            return saps, tuple(sorted(llc.snl.items()))
+        except Exception as e:     # noqa
+            raise RuntimeError("adapter: llc.sap / llc.snl not found (%r)" % e)
+
+    def op_reclose(self, sid, times):
+        """close() once more (or twice more) on a socket that was closed earlier in the history"""
+        if sid not in self.socks or self.m[self.end[sid]].sock[sid].open:
+            return False
+        end = self.end[sid]
+        m = self.m[end]
+        ms = m.sock[sid]
+        s = self.socks[sid]
+        how = m.closed_again(sid)
+        mview = m.view()
+        before = self.table(end)
+        tainted = ms.addr in m.tainted_addr
+        for i in range(times):
+            if ms.kind == AM.DLC:
+                # a closed data link connection has nothing to disconnect; the helper thread only guards the harness
+                done, out, cap, hung = self.blocking(s.close, sent=lambda cap: True, answered=lambda cap: False)
+                if not done:
+                    if not tainted:
+                        self.R.inconc("close() of an already closed data link connection socket did not return")
+                    self.R.count("close_hung")
+                    self.stop = True
+                    return
+            else:
+                out = self.call(s.close)
+            if out[0] == "exc":
+                if not tainted:
+                    self.report("close-again/escape/" + exc_sig(out[1]),
+                                "close() of an already closed %s socket (old address %r, now %s) raised %r"
+                                % (ms.kind, ms.addr, how, out[1]))
+                break
+            self.R.count("reclose_returned" if out[0] == "ok" else "reclose_raised_error")
+        self.R.count({"reused": "reclose_address_reused", "free": "reclose_address_free",
+                      "beside-listener": "reclose_beside_listener", "unbound": "reclose_unbound"}[how])
+        if ms.parent is not None:
+            self.R.count("reclose_accepted_socket")
+        if times > 1:
+            self.R.count("reclose_twice")
+        if mview != m.view():      # pragma: no cover - the model is not touched above
+            raise RuntimeError("model changed by a repeated close")
+        after = self.table(end)
+        if after != before and not tainted:
+            self.judged += 1
+            b_sap, a_sap = dict(before[0]), dict(after[0])
+            b_snl, a_snl = dict(before[1]), dict(after[1])
+            gone = [a for a in b_sap if a not in a_sap and a not in m.tainted_addr]
+            lost = [n for n in b_snl if n not in a_snl]
+            where = {"reused": "address-reused-by-another-socket", "beside-listener": "address-shared-with-its-listening-socket",
+                     "free": "address-free", "unbound": "unbound"}[how]
+            if gone:
+                self.report("close-again/access-point-of-open-socket-released/" + where,
+                            "closing an already closed %s socket (old address %r) again removed the access point at %r "
+                            "where %d open socket(s) are bound" % (ms.kind, ms.addr, gone[0], len(m.holders(gone[0]))))
+            if lost:
+                self.report("close-again/service-name-unregistered/" + where,
+                            "closing an already closed %s socket (old address %r) again removed the service name %r "
+                            "of an open socket" % (ms.kind, ms.addr, lost[0]))
+            if not gone and not lost:
+                self.report("close-again/address-table-changed/" + where,
+                            "closing an already closed %s socket (old address %r) again changed the address table"
+                            % (ms.kind, ms.addr))
+        elif not tainted:
+            self.judged += 1
+            self.R.count("judged_reclose")
+        self.pump(1)
+
     # -- name resolution -------------------------------------------------------------------------------
     def op_resolve(self, end, name):
         peer = self.m[other(end)]
-        allowed = peer.lookup_allowed(name)
         cached = name in self.asked[end]
         stale = cached and self.asked[end][name] != self.epoch[other(end)].get(name, 0)
         bname = name.encode("latin-1")
@@ -412,9 +520,14 @@ class Hist(object):
         if out[0] != "ok":
             self.report("resolve/escape/" + (exc_sig(out[-1])), "resolve(%r) raised %r" % (name, out[-1]))
             return
-        val = out[1]
-        self.R.count("resolves_answered")
         on_wire = any(f["t"] == "SNL" and f["sdreq"] for d, f in cap)
+        self.judge_resolve("resolve", end, name, out[1], cached, stale, on_wire)
+
+    def judge_resolve(self, prefix, end, name, val, cached, stale, on_wire, batch=()):
+        """one answer of resolve(name) at `end` against the peer's table.  batch: the other names asked together."""
+        peer = self.m[other(end)]
+        allowed = peer.lookup_allowed(name)
+        self.R.count("resolves_answered")
         self.R.count("resolve_on_wire" if on_wire else "resolve_from_cache")
         if not cached:
             self.asked[end][name] = self.epoch[other(end)].get(name, 0)
@@ -425,22 +538,214 @@ class Hist(object):
             self.R.count("resolve_tainted_unjudged")
             return
         self.judged += 1
-        self.R.count("judged_resolve")
+        self.R.count("judged_" + prefix.replace("-", "_"))
         self.R.count("resolve_expected_present" if 0 not in allowed else "resolve_expected_absent")
         if val in allowed:
             return
+        theirs = set()
+        for n in batch:
+            if n != name:
+                theirs |= peer.lookup_allowed(n) - {0}
         if val is None:
-            sig = "resolve/none-on-live-link"
+            sig = prefix + "/none-on-live-link"
+        elif val and val in theirs:
+            sig = prefix + ("/absent-service-answered-with-address-of-another-request" if 0 in allowed else
+                            "/answered-with-address-of-another-request")
         elif name in peer.ghost and val == peer.ghost[name]:
-            sig = "resolve/closed-service-reported-at-old-address"
+            sig = prefix + "/closed-service-reported-at-old-address"
         elif 0 in allowed:
-            sig = "resolve/absent-service-reported-present"
+            sig = prefix + "/absent-service-reported-present"
         elif val == 0:
-            sig = "resolve/bound-service-reported-absent"
+            sig = prefix + "/bound-service-reported-absent"
         else:
-            sig = "resolve/wrong-address"
-        self.report(sig, "resolve(%r) at end %s returned %r, the peer's table says %s" % (name, end, val, sorted(allowed)))
+            sig = prefix + "/wrong-address"
+        self.report(sig, "resolve(%r) at end %s returned %r, the peer's table says %s%s"
+                    % (name, end, val, sorted(allowed), (" (asked together with %s)" % sorted(batch)) if batch else ""))
         peer.taint(name=name)
+
+    def op_mresolve(self, end, names):
+        """k resolve() calls started before the link is pumped: their requests travel together"""
+        if not (2 <= len(names) <= 8):
+            return False
+        pe = other(end)
+        peer = self.m[pe]
+        info = []
+        for name in names:
+            cached = name in self.asked[end]
+            info.append((cached, cached and self.asked[end][name] != self.epoch[pe].get(name, 0)))
+        bnames = [n.encode("latin-1") for n in names]
+        fresh = [bn for bn, (cached, _) in zip(bnames, info) if not cached]
+        sd = self.llc[end].sap[1]
+        queue = getattr(sd, "sdreq", None)     # adapter, only to start the helpers in a defined order
+
+        seen = [len(queue) if queue is not None else 0]
+
+        def started(i, th):
+            # the next helper starts when this one has queued its request (or has returned: answer from the cache)
+            if queue is None:
+                time.sleep(0.003)
+                return
+            limit = time.monotonic() + 2.0
+            while th.is_alive() and len(queue) <= seen[0]:
+                if time.monotonic() > limit:
+                    self.R.count("batch_start_sync_timeout")
+                    break
+                time.sleep(0.0001)
+            seen[0] = len(queue)
+
+        def mine(cap, key):
+            return [x for d, f in cap if d[0] == end and f["t"] == "SNL" for x in f[key]]
+
+        def sent(cap):
+            on = [n for _, n in mine(cap, "sdreq")]
+            return all(on.count(bn) >= fresh.count(bn) for bn in set(fresh))
+
+        def answered(cap):
+            tids = set(t for t, n in mine(cap, "sdreq") if n in bnames)
+            got = set(t for d, f in cap if d[0] == pe and f["t"] == "SNL" for t, _ in f["sdres"])
+            return tids <= got
+        done, outs, cap, hung = self.blocking_many(
+            [lambda n=n: self.llc[end].resolve(n) for n in names], sent, answered, started=started)
+        self.R.count("resolve_batches")
+        self.R.count("resolve_batch_size_%d" % len(names))
+        # what really happened on the wire
+        pdus = [[(t, n) for t, n in f["sdreq"] if n in bnames] for d, f in cap if d[0] == end and f["t"] == "SNL"]
+        pdus = [x for x in pdus if x]
+        self.R.count("batch_requests_on_wire", sum(len(x) for x in pdus))
+        self.R.max("max_sdreq_in_one_snl", max([len(x) for x in pdus] or [0]))
+        if len(pdus) == 1 and len(pdus[0]) >= 2:
+            self.R.count("resolve_batches_in_one_snl")
+        elif len(pdus) > 1:
+            self.R.count("resolve_batches_split_over_several_snl")
+        for x in pdus:
+            pat = "".join("A" if 0 in peer.lookup_allowed(n.decode("latin-1")) else "P" for _, n in x)
+            if len(x) >= 2:
+                self.R.seen("batch_wire_patterns", pat)
+            if "P" in pat and "A" in pat[pat.index("P"):]:
+                self.R.count("batch_present_before_absent")
+            if "A" in pat and "P" in pat[pat.index("A"):]:
+                self.R.count("batch_absent_before_present")
+        if not done:
+            missing = [n for n, o in zip(names, outs) if o is None]
+            if hung and not all(n in peer.tainted_name for n in missing):
+                self.report("resolve-batch/no-answer", "%d resolve() calls started together: the requests went out, the "
+                            "link fell idle, %d of them got no answer (%r)" % (len(names), len(missing), missing[:3]))
+            else:
+                self.R.inconc("resolve() helpers of a batch did not return within the turn bound")
+            self.stop = True      # parked helper threads stay inside llc.resolve
+            return
+        on_wire = set(n for x in pdus for _, n in x)
+        for name, bn, out, (cached, stale) in zip(names, bnames, outs, info):
+            if out[0] != "ok":
+                self.report("resolve-batch/escape/" + (exc_sig(out[-1])), "resolve(%r) raised %r" % (name, out[-1]))
+                continue
+            self.judge_resolve("resolve-batch", end, name, out[1], cached, stale, bn in on_wire, batch=names)
+
+    def op_snl(self, sid, names):
+        """one SNL PDU with several SDREQs, sent through a raw access point; the SDRES parameters the peer returns are
+        read from the wire and judged against the peer's table"""
+        if not self.usable(sid) or self.m[self.end[sid]].sock[sid].kind != AM.RAW or not (1 <= len(names) <= 8):
+            return False
+        import nfc.llcp.pdu as P
+        end = self.end[sid]
+        pe = other(end)
+        m, peer = self.m[end], self.m[pe]
+        s = self.socks[sid]
+        used = set(getattr(self.llc[end].sap[1], "sent", None) or ())    # adapter: ids the local resolver knows
+        tids, t = [], (self.next_id * 37) % 256
+        for _ in range(256):
+            if len(tids) == len(names):
+                break
+            if t not in used:
+                tids.append(t)
+            t = (t + 1) % 256
+        if len(tids) < len(names):
+            return False
+        self.next_id += 1
+        bnames = [n.encode("latin-1") for n in names]
+        req = P.ServiceNameLookup(1, 1, sdreq=list(zip(tids, bnames)))
+        out = self.call(lambda: s.send(req, self.llcp.MSG_DONTWAIT))
+        if out[0] == "exc":
+            self.report("snl-batch/escape/send/" + exc_sig(out[1]), "send(SNL PDU) on a raw access point raised %r" % out[1])
+            return
+        self.autobind(sid, "send", out)
+        if out[0] != "ok" or not out[1]:
+            self.R.count("snl_send_failed")
+            return
+        self.capture = cap = []
+        idle = 0
+        for _ in range(16):
+            c = self.pump(1)
+            got = set(tid for d, f in cap if d[0] == pe and f["t"] == "SNL" for tid, _ in f["sdres"])
+            if all(t in got for t in tids):
+                break
+            idle = 0 if c else idle + 1
+            if idle >= 3:
+                break
+        self.pump(1)      # a second answer to the same request would follow now
+        self.capture = None
+        answers = {}
+        for d, f in cap:
+            if d[0] == pe and f["t"] == "SNL":
+                for tid, sap in f["sdres"]:
+                    answers.setdefault(tid, []).append(sap)
+        sent = [f["sdreq"] for d, f in cap if d[0] == end and f["t"] == "SNL" and f["sdreq"]]
+        self.R.count("snl_batches")
+        if len(sent) == 1 and [tuple(x) for x in sent[0]] == list(zip(tids, bnames)):
+            self.R.count("snl_batches_in_one_pdu" if len(names) > 1 else "snl_single_request_pdu")
+            self.R.max("max_sdreq_in_one_snl", len(names))
+        else:
+            self.R.count("snl_batch_not_seen_as_sent")
+            return
+        pat = "".join("A" if 0 in peer.lookup_allowed(n) else "P" for n in names)
+        self.R.seen("batch_wire_patterns", pat)
+        if "P" in pat and "A" in pat[pat.index("P"):]:
+            self.R.count("batch_present_before_absent")
+        if "A" in pat and "P" in pat[pat.index("A"):]:
+            self.R.count("batch_absent_before_present")
+        for i, (tid, name) in enumerate(zip(tids, names)):
+            if name in peer.tainted_name:
+                self.R.count("resolve_tainted_unjudged")
+                continue
+            got = answers.get(tid)
+            allowed = peer.lookup_allowed(name)
+            if got is not None and any(isinstance(v, int) and (v & 63) in peer.tainted_addr for v in got):
+                self.R.count("resolve_tainted_unjudged")
+                continue
+            self.judged += 1
+            self.R.count("judged_snl_batch")
+            self.R.count("resolve_expected_present" if 0 not in allowed else "resolve_expected_absent")
+            if got is None:
+                self.report("snl-batch/request-not-answered", "SNL PDU with %d requests: no SDRES for request %d (%r) "
+                            "came back although the link fell idle" % (len(names), i, name))
+                peer.taint(name=name)
+                continue
+            if len(got) > 1:
+                self.report("snl-batch/request-answered-twice", "SNL PDU with %d requests: %d SDRES for request %d (%r)"
+                            % (len(names), len(got), i, name))
+                peer.taint(name=name)
+                continue
+            val = got[0]
+            if val in allowed:
+                continue
+            theirs = set()
+            for n in names:
+                if n != name:
+                    theirs |= peer.lookup_allowed(n) - {0}
+            if val and val in theirs:
+                sig = "snl-batch/" + ("absent-service-answered-with-address-of-another-request" if 0 in allowed else
+                                      "answered-with-address-of-another-request")
+            elif name in peer.ghost and val == peer.ghost[name]:
+                sig = "snl-batch/closed-service-reported-at-old-address"
+            elif 0 in allowed:
+                sig = "snl-batch/absent-service-reported-present"
+            elif val == 0:
+                sig = "snl-batch/bound-service-reported-absent"
+            else:
+                sig = "snl-batch/wrong-address"
+            self.report(sig, "SNL PDU %r sent to end %s: SDRES for %r is %r, the table there says %s"
+                        % (names, pe, name, val, sorted(allowed)))
+            peer.taint(name=name)
 
     # -- connections ---------------------------------------------------------------------------------
     def _pending(self, sid):
@@ -888,16 +1193,17 @@ WKS_NAMES = ["urn:nfc:sn:snep", "urn:nfc:sn:snep", "urn:nfc:sn:sdp", "urn:nfc:sn
 PROFILES = ["mixed", "mixed", "names", "names", "named-exhaust", "dyn-exhaust", "wks", "dgram", "conn"]
 
 WEIGHTS = {
-    #            socket bind listen connect sendto recv resolve close dsend pump setbuf
-    "mixed":         (14, 22, 6, 10, 10, 6, 10, 12, 4, 2, 1),
-    "names":         (12, 20, 10, 14, 2, 1, 18, 16, 2, 1, 0),
-    "named-exhaust": (14, 30, 3, 4, 2, 1, 10, 18, 0, 1, 0),
-    "dyn-exhaust":   (14, 30, 4, 5, 6, 2, 2, 18, 0, 1, 0),
-    "wks":           (14, 28, 6, 8, 6, 4, 12, 14, 0, 1, 0),
-    "dgram":         (10, 14, 0, 2, 30, 18, 4, 10, 0, 4, 3),
-    "conn":          (10, 10, 8, 22, 2, 1, 6, 10, 24, 2, 0),
+    #            socket bind listen connect sendto recv resolve close dsend pump setbuf reclose mresolve snl
+    "mixed":         (14, 22, 6, 10, 10, 6, 10, 12, 4, 2, 1, 5, 2, 2),
+    "names":         (12, 20, 10, 14, 2, 1, 18, 16, 2, 1, 0, 5, 4, 3),
+    "named-exhaust": (14, 30, 3, 4, 2, 1, 10, 18, 0, 1, 0, 4, 1, 1),
+    "dyn-exhaust":   (14, 30, 4, 5, 6, 2, 2, 18, 0, 1, 0, 6, 1, 1),
+    "wks":           (14, 28, 6, 8, 6, 4, 12, 14, 0, 1, 0, 4, 2, 2),
+    "dgram":         (10, 14, 0, 2, 30, 18, 4, 10, 0, 4, 3, 5, 1, 1),
+    "conn":          (10, 10, 8, 22, 2, 1, 6, 12, 24, 2, 0, 9, 1, 1),
 }
-OPKINDS = ("socket", "bind", "listen", "connect", "sendto", "recv", "resolve", "close", "dsend", "pump", "setbuf")
+OPKINDS = ("socket", "bind", "listen", "connect", "sendto", "recv", "resolve", "close", "dsend", "pump", "setbuf",
+           "reclose", "mresolve", "snl")
 
 
 class Gen(object):
@@ -1181,6 +1487,83 @@ class Gen(object):
             return ["close", rng.choice(bound)]
         return ["close", rng.choice(c)]
 
+    def g_reclose(self):
+        """close again a socket that was closed earlier; preferably one whose old address is in use now (taken by a
+        later socket, or still held by its listening socket / sibling connections)"""
+        rng, h = self.rng, self.h
+        c = [x for x in h.socks if not h.m[h.end[x]].sock[x].open]
+        if not c:
+            return None
+        hot = [x for x in c if h.m[h.end[x]].sock[x].addr is not None
+               and h.m[h.end[x]].at.get(h.m[h.end[x]].sock[x].addr)]
+        acc = [x for x in hot if h.m[h.end[x]].sock[x].parent is not None]
+        r = rng.random()
+        if acc and r < 0.25:
+            sid = rng.choice(sorted(acc, key=str))
+        elif hot and r < 0.75:
+            sid = rng.choice(sorted(hot, key=str))
+        else:
+            sid = rng.choice(sorted(c, key=str))
+        return ["reclose", sid, rng.choice([1, 1, 2])]
+
+    def batch_names(self, end):
+        """2..6 names for one batch asked at `end`: fresh ones (bound / bound and closed again / never bound at the
+        peer - set up by queued operations) so that the resolver cache cannot answer, plus known and well-known ones"""
+        rng, h = self.rng, self.h
+        pe = other(end)
+        pm, m = h.m[pe], h.m[end]
+        names, pre = [], []
+        for _ in range(rng.choice([2, 2, 3, 3, 4, 5, 6])):
+            r = rng.random()
+            ghosts = [n for n in pm.ghost if n not in pm.names]
+            if r < 0.45:
+                n = self.fresh_name()
+                sid = self.new_sid()
+                pre += [["socket", pe, sid, rng.choice(["ldl", "dlc", "raw"])], ["bind", sid, n]]
+                if r >= 0.30:
+                    pre.append(["close", sid])
+            elif r < 0.65:
+                n = self.fresh_name()
+            elif r < 0.75 and pm.names:
+                n = rng.choice(sorted(pm.names))
+            elif r < 0.82 and ghosts:
+                n = rng.choice(ghosts)
+            elif r < 0.92:
+                n = rng.choice(WKS_NAMES)
+            elif r < 0.96 and m.names:
+                n = rng.choice(sorted(m.names))
+            else:
+                n = rng.choice(self.pool)
+            if n in names and rng.random() < 0.8:
+                continue
+            names.append(n)
+        while len(names) < 2:
+            names.append(self.fresh_name())
+        return names, pre
+
+    def g_mresolve(self):
+        end = self.rng.choice("AB")
+        names, pre = self.batch_names(end)
+        self.queue += pre + [["mresolve", end, names]]
+        return self.queue.pop(0)
+
+    def g_snl(self):
+        rng, h = self.rng, self.h
+        end = rng.choice("AB")
+        raws = self.socks(end=end, pred=lambda s: s.kind == "raw")
+        bound = [x for x in raws if h.m[end].sock[x].addr is not None]
+        pre = []
+        if bound and rng.random() < 0.7:
+            sid = rng.choice(bound)
+        elif raws and rng.random() < 0.7:
+            sid = rng.choice(raws)
+        else:
+            sid = self.new_sid()
+            pre.append(["socket", end, sid, "raw"])
+        names, pre2 = self.batch_names(end)
+        self.queue += pre + pre2 + [["snl", sid, names]]
+        return self.queue.pop(0)
+
     def g_dsend(self):
         c = [x for x in self.h.partner if self.h.usable(x)]
         return ["dsend", self.rng.choice(sorted(c, key=str))] if c else None
@@ -1225,26 +1608,37 @@ def _listify(op):
 
 
 # -- bounded exhaustive short histories ---------------------------------------------------------------
-# slots: 1 dlc@B, 2 raw@B, 3 ldl@B, 4 dlc@A (client), 5 ldl@A (datagram sender)
-SLOTS = {1: ("B", "dlc"), 2: ("B", "raw"), 3: ("B", "ldl"), 4: ("A", "dlc"), 5: ("A", "ldl")}
+# slots: 1 dlc@B, 2 raw@B, 3 ldl@B, 4 dlc@A (client), 5 ldl@A (datagram sender), 6 raw@A (sends SNL PDUs)
+SLOTS = {1: ("B", "dlc"), 2: ("B", "raw"), 3: ("B", "ldl"), 4: ("A", "dlc"), 5: ("A", "ldl"), 6: ("A", "raw")}
 SVC = "urn:nfc:sn:svc"
 ALPHABET = [
     ("bind", 1, "urn:nfc:sn:snep"), ("bind", 1, SVC), ("bind", 3, SVC), ("bind", 3, 32), ("bind", 1, None),
     ("bind", 2, 4), ("bind", 2, 16), ("listen", 1), ("close", 1), ("close", 2), ("close", 3),
     ("resolve", SVC), ("resolve", "urn:nfc:sn:snep"), ("connect", SVC), ("connect", "urn:nfc:sn:snep"), ("sendto", 32),
+    ("again",), ("mresolve",), ("snl",),
 ]
+NEW_SYMBOLS = (16, 17, 18)
 
 
 def expand_short(word):
-    """symbols over slots -> concrete operation list (close re-creates the slot's socket, connect uses a fresh client)"""
+    """symbols over slots -> concrete operation list.  close re-creates the slot's socket; connect uses a fresh client
+    that is closed afterwards - connect(SVC) also closes the accepted socket, connect(snep) leaves it open; `again`
+    closes every socket closed so far in the history once more (oldest first); `mresolve` / `snl` ask for SVC, a name
+    never used before and snep together (bound before unbound before well-known)"""
     ops = []
     cur = {}
     nxt = [100]
+    closed = []
+    absent = [0]
 
     def fresh(slot):
         nxt[0] += 1
         cur[slot] = nxt[0]
         ops.append(["socket", SLOTS[slot][0], cur[slot], SLOTS[slot][1]])
+
+    def batch():
+        absent[0] += 1
+        return [SVC, "urn:nfc:sn:absent%d" % absent[0], "urn:nfc:sn:snep"]
     for slot in SLOTS:
         fresh(slot)
     for sym in word:
@@ -1255,6 +1649,7 @@ def expand_short(word):
             ops.append(["listen", cur[1], 1])
         elif k == "close":
             ops.append(["close", cur[sym[1]]])
+            closed.append(cur[sym[1]])
             fresh(sym[1])
         elif k == "resolve":
             ops.append(["resolve", "A", sym[1]])
@@ -1262,15 +1657,27 @@ def expand_short(word):
             nxt[0] += 1
             ops.append(["connect", cur[4], sym[1], nxt[0]])
             ops.append(["close", cur[4]])
+            closed.append(cur[4])
+            if sym[1] == SVC:
+                ops.append(["close", nxt[0]])      # skipped when nothing was accepted
+                closed.append(nxt[0])
             fresh(4)
         elif k == "sendto":
             ops.append(["sendto", cur[5], sym[1], 12, 1])
             ops.append(["recv", cur[3]])
             ops.append(["recv", cur[2]])
+        elif k == "again":
+            for x in closed:
+                ops.append(["reclose", x, 1])       # skipped for sockets that never existed
+        elif k == "mresolve":
+            ops.append(["mresolve", "A", batch()])
+        elif k == "snl":
+            ops.append(["snl", cur[6], batch()])
     return ops
 
 
-def short_words(maxlen):
+def short_words(maxlen, tail_len=0):
+    """all words up to maxlen, then (tail_len > maxlen) the words of length tail_len that end in a new symbol"""
     n = len(ALPHABET)
     for length in range(1, maxlen + 1):
         for i in range(n ** length):
@@ -1279,6 +1686,14 @@ def short_words(maxlen):
                 w.append(x % n)
                 x //= n
             yield w
+    if tail_len > maxlen:
+        for last in NEW_SYMBOLS:
+            for i in range(n ** (tail_len - 1)):
+                w, x = [], i
+                for _ in range(tail_len - 1):
+                    w.append(x % n)
+                    x //= n
+                yield w + [last]
 
 
 # =====================================================================================================
@@ -1287,8 +1702,8 @@ def short_words(maxlen):
 def plan(tier, seed):
     n = 16
     if tier == "quick":
-        return [{"hist": 125, "ops": 60, "short_len": 3, "timeout": 600} for _ in range(n)]
-    return [{"hist": 3750, "ops": 60, "short_len": 4, "timeout": 3000} for _ in range(n)]
+        return [{"hist": 125, "ops": 60, "short_len": 3, "short_tail": 4, "timeout": 600} for _ in range(n)]
+    return [{"hist": 3750, "ops": 60, "short_len": 4, "short_tail": 0, "timeout": 3000} for _ in range(n)]
 
 
 SHRINK_RUNS = 120
@@ -1336,7 +1751,7 @@ def run(desc, R, rng):
     shard, nshards = desc["shard"], 16
     # (a) bounded exhaustive short histories, dealt round-robin to the shards
     n_short = 0
-    for i, w in enumerate(short_words(desc["short_len"])):
+    for i, w in enumerate(short_words(desc["short_len"], desc.get("short_tail", 0))):
         if i % nshards != shard:
             continue
         ops = expand_short([ALPHABET[k] for k in w])
